@@ -14,6 +14,7 @@ Materials half: exhaustive enumeration of armi.materials at sampled temperatures
 """
 import collections
 import inspect
+import sys
 import math
 import os
 import re
@@ -23,13 +24,13 @@ from fractions import Fraction
 from harness import common
 from harness.common import Failure, lean_run
 
-PROP_MODULES = ["ArmiVerif.Props.C19", "ArmiVerif.Props.C19Table"]
+PROP_MODULES = ["ArmiVerif.Props.C19", "ArmiVerif.Props.C19Strings", "ArmiVerif.Props.C19Table"]
 GEN_MODULES = ["ArmiVerif.Gen.NuclideTable", "ArmiVerif.Props.C19Table"]
-PARTIAL = ("decimal/character rendering of the structured ids is compared exhaustively with Python but not proved "
-           "injective (structured ids are); MC2 ids are data (uniqueness per library column is a table theorem, "
-           "pseudo-nuclides DUMP1/DUMP2 excluded: finding F18); lumped/dummy burn-chain products are defined in code and "
-           "checked on the implementation only; the materials half is exhaustive enumeration of the material classes at "
-           "sampled temperatures, not a theorem")
+PARTIAL = ("identifier STRINGS are proved injective (Props/C19Strings.lean: name, label, MCNP, AAAZZZS, database name as the "
+           "character sequences Python produces, tied by exhaustive string comparison); MC2 ids are data (uniqueness per library "
+           "column is a table theorem, pseudo-nuclides DUMP1/DUMP2 excluded: finding F18); lumped/dummy burn-chain products are "
+           "defined in code and checked on the implementation only; the materials half is exhaustive enumeration of the material "
+           "classes at sampled temperatures, not a theorem")
 ASSUMPTIONS = [
     "translator harness/c19.py:regenerate (data only, no theorem text); its output is cross-checked on every run against "
     "the objects armi's own loader built from the same files",
@@ -182,7 +183,23 @@ def build_tables():
                 mcckeys.add(key)
             col.append((str_code(v), key, str(v), name))
         cols[colname] = sorted(col)
-    return {"rows": rows, "elements": elements, "groups": groups, "trans": trans, "known": sorted(known),
+    # per element, the natural isotopics AS THE LOADED IMPLEMENTATION REPORTS THEM (Element.getNaturalIsotopics), when armi
+    # is importable; from the data (abundance > 0, isomers included) otherwise
+    naturals = []
+    impl = None
+    mod = sys.modules.get("armi.nucDirectory.elements")
+    if mod is not None and getattr(mod, "byZ", None):
+        impl = mod.byZ
+    for (z, sym), isos in groups.items():
+        if impl is not None and z in impl:
+            try:
+                ks = sorted(n.a * 10 + n.state for n in impl[z].getNaturalIsotopics())
+            except Exception:  # noqa
+                ks = [0]
+        else:
+            ks = sorted(r["a"] * 10 + r["s"] for r in isos if r["abund"] > 0 and r["a"] > 0)
+        naturals.append((z, ks))
+    return {"naturals": naturals, "rows": rows, "elements": elements, "groups": groups, "trans": trans, "known": sorted(known),
             "cols": cols, "mcckeys": sorted(mcckeys), "chain": chain, "symz": symz, "mcc": mcc}
 
 
@@ -204,6 +221,8 @@ def render(t):
         L.append(f"def {nm} : Group := ⟨{z}, {sym_code(sym)} /-{sym}-/, {a0}, [{body}]⟩")
     L.append("")
     L.append("def groups : List Group := [" + ", ".join(gnames) + "]\n")
+    L.append("/-- per element (same order as `groups`): the natural isotopics reported by Element.getNaturalIsotopics as a*10+state -/")
+    L.append("def naturals : List (Nat × List Nat) := [" + ", ".join(f"({z}, [{', '.join(map(str, ks))}])" for z, ks in t["naturals"]) + "]\n")
     L.append("/-- sorted distinct nuclide keys ((z*1000+a)*10+s) named by burn-chain.yaml -/")
     L.append("def chainNuclides : List Nat := [" + ", ".join(str(k) for k in t["known"]) + "]\n")
     L.append("def chain : List Trans := [")
